@@ -109,10 +109,18 @@ Proof. split; left; reflexivity. Qed.
 
 Lemma in_order_keys {A} three (ent : list (bytes * tvc * A)) :
   Permutation (map fst (in_order three ent)) (map (fun e => fst (fst e)) ent).
-Proof. rewrite <- (map_map (fun e => (fst (fst e), snd e)) fst). apply Permutation_map, in_order_perm. Qed.
+Proof.
+  replace (map (fun e : bytes * tvc * A => fst (fst e)) ent) with (map fst (map (fun e : bytes * tvc * A => (fst (fst e), snd e)) ent))
+    by (rewrite map_map; reflexivity).
+  apply Permutation_map, in_order_perm.
+Qed.
 Lemma in_order_vals {A} three (ent : list (bytes * tvc * A)) :
   Permutation (map snd (in_order three ent)) (map snd ent).
-Proof. rewrite <- (map_map (fun e : bytes * tvc * A => (fst (fst e), snd e)) snd). apply Permutation_map, in_order_perm. Qed.
+Proof.
+  replace (map snd ent) with (map snd (map (fun e : bytes * tvc * A => (fst (fst e), snd e)) ent))
+    by (rewrite map_map; reflexivity).
+  apply Permutation_map, in_order_perm.
+Qed.
 
 Theorem tv_value_built : forall v, wf_tvc v ->
   BuiltValue scalar_ok key_ok (tv_value v) /\ value_decor (tv_value v) = decor_default.
@@ -128,4 +136,174 @@ Proof.
     + apply (perm_forall _ _ _ (Permutation_sym (in_order_vals true (vents m)))). unfold vents. rewrite map_map.
       apply Forall_forall. intros x Hx. apply in_map_iff in Hx as (kv & <- & Hkv). rewrite Forall_forall in IH.
       apply (IH (snd kv)). apply in_map, Hkv.
+Qed.
+
+(* ---- tables, arrays of tables, the document ------------------------------------------------------------------------- *)
+Lemma doc_tbl_the b l : doc_tbl b l = the_tbl b l None.
+Proof. reflexivity. Qed.
+
+Lemma existsb_all_true {A} (f : A -> bool) l : l <> [] -> Forall (fun x => f x = true) l -> existsb f l = true.
+Proof. intros Hne H. destruct H as [|x l Hx _]; [contradiction|]. cbn [existsb]. rewrite Hx. reflexivity. Qed.
+
+Lemma perm_nonempty {A} (l l' : list A) : Permutation l l' -> l' <> [] -> l <> [].
+Proof. intros Hp Hne E. subst. apply Permutation_nil in Hp. contradiction. Qed.
+
+(* what is shown of a table value: its entries as the serializer orders them *)
+Definition entries_good (three : bool) (m : list (bytes * tvc)) : Prop :=
+  BuiltEntries scalar_ok key_ok (in_order three (ients m)) /\
+  Forall (fun kv => item_prints (snd kv) = true) (in_order three (ients m)).
+
+Lemma entries_good_of three m :
+  NoDup (map fst m) -> Forall key_ok (map fst m) ->
+  Forall (fun kv => BuiltItem scalar_ok key_ok (tv_item (snd kv)) /\ item_prints (tv_item (snd kv)) = true) m ->
+  entries_good three m.
+Proof.
+  intros Hnd Hk H. split.
+  - constructor.
+    + apply (Permutation_NoDup (Permutation_sym (in_order_keys three (ients m)))). unfold ients. rewrite map_map. exact Hnd.
+    + apply (perm_forall _ _ _ (Permutation_sym (in_order_keys three (ients m)))). unfold ients. rewrite map_map. exact Hk.
+    + apply (perm_forall _ _ _ (Permutation_sym (in_order_vals three (ients m)))). unfold ients. rewrite map_map.
+      apply Forall_forall. intros x Hx. apply in_map_iff in Hx as (kv & <- & Hkv). rewrite Forall_forall in H. apply (H kv Hkv).
+  - apply (perm_forall _ _ _ (Permutation_sym (in_order_perm three (ients m)))). unfold ients. rewrite map_map. cbn [snd].
+    apply Forall_forall. intros x Hx. apply in_map_iff in Hx as (kv & <- & Hkv). rewrite Forall_forall in H. apply (H kv Hkv).
+Qed.
+
+Lemma in_order_nonempty {A} three (ent : list (bytes * tvc * A)) : ent <> [] -> in_order three ent <> [].
+Proof.
+  intro H. apply (perm_nonempty _ _ (in_order_perm three ent)). destruct ent; [contradiction|discriminate].
+Qed.
+
+Definition item_good (v : tvc) : Prop :=
+  BuiltItem scalar_ok key_ok (tv_item v) /\ item_prints (tv_item v) = true /\
+  forall m, v = TvTab m -> entries_good true m.
+
+Lemma table_item_built b (m : list (bytes * tvc)) :
+  entries_good true m -> b = nonempty_b m ->
+  BuiltItem scalar_ok key_ok (ITable (doc_tbl b (in_order true (ients m)))) /\
+  item_prints (ITable (doc_tbl b (in_order true (ients m)))) = true.
+Proof.
+  intros [HE Hpr] ->.
+  assert (Hex : nonempty_b m = true -> existsb (fun kv => item_prints (snd kv)) (in_order true (ients m)) = true).
+  { intro Hne. apply existsb_all_true; [|exact Hpr]. apply in_order_nonempty. destruct m; [discriminate|discriminate]. }
+  split; [apply (BI_table scalar_ok key_ok (nonempty_b m) _ HE Hex)|].
+  cbn [item_prints]. rewrite doc_tbl_the, tbl_prints_the. cbn [t_implicit the_tbl].
+  destruct (nonempty_b m) eqn:E; [rewrite (Hex eq_refl); reflexivity|reflexivity].
+Qed.
+
+Theorem tv_item_good : forall v, wf_tvc v -> item_good v.
+Proof.
+  apply wf_tvc_strong.
+  - intros s Hs. split; [|split; [reflexivity|discriminate]]. cbn [tv_item]. constructor.
+    apply (tv_value_built (TvLeaf s) (WfLeaf s Hs)).
+  - intros l Hl IH. split; [|split; [|discriminate]].
+    + destruct (c_aot_able l) eqn:Ea.
+      * rewrite (tv_item_aot l Ea). constructor. apply Forall_forall. intros x Hx. apply in_map_iff in Hx as (v & <- & Hv).
+        assert (Hall : forallb tvc_is_table l = true) by (destruct l; [discriminate|exact Ea]).
+        rewrite forallb_forall in Hall. specialize (Hall v Hv). destruct v as [s|l0|m]; try discriminate.
+        cbn [tab_of snd]. rewrite Forall_forall in IH. destruct (IH _ Hv) as (_ & _ & Hm). apply (Hm m eq_refl).
+      * cbn [tv_item]. rewrite Ea. constructor. apply (tv_value_built (TvArr l) (WfArr l Hl)).
+    + destruct (c_aot_able l) eqn:Ea.
+      * rewrite (tv_item_aot l Ea). destruct l; [discriminate|reflexivity].
+      * cbn [tv_item]. rewrite Ea. reflexivity.
+  - intros m Hnd Hk _ IH.
+    assert (Hg : entries_good true m).
+    { apply entries_good_of; [exact Hnd|exact Hk|]. apply Forall_forall. intros kv Hkv. rewrite Forall_forall in IH.
+      destruct (IH (snd kv) (in_map snd _ _ Hkv)) as (H1 & H2 & _). auto. }
+    unfold item_good. rewrite tv_item_tab. destruct (table_item_built _ m Hg eq_refl) as [H1 H2].
+    split; [exact H1|]. split; [exact H2|]. intros m' E. injection E as <-. exact Hg.
+Qed.
+
+Theorem tv_doc_built three m : wf_tvc (TvTab m) -> BuiltTbl scalar_ok key_ok (tv_doc three m).
+Proof.
+  intro H. inversion H as [| |m' Hnd Hk Hm]; subst.
+  exists (in_order three (ients m)), (nonempty_b m), None. split; [|split; [left; reflexivity|reflexivity]].
+  apply entries_good_of; [exact Hnd|exact Hk|]. apply Forall_forall. intros kv Hkv. rewrite Forall_forall in Hm.
+  destruct (tv_item_good (snd kv) (Hm _ (in_map snd _ _ Hkv))) as (H1 & H2 & _). auto.
+Qed.
+
+(* ---- nesting ------------------------------------------------------------------------------------------------------------ *)
+Lemma fold_max_bound {A} (f : A -> nat) l B : (forall x, In x l -> f x <= B) -> fold_right (fun x acc => Nat.max (f x) acc) 0 l <= B.
+Proof.
+  induction l as [|x l IH]; intro H; [cbn; lia|]. cbn [fold_right].
+  pose proof (H x (or_introl eq_refl)). specialize (IH (fun y Hy => H y (or_intror Hy))). lia.
+Qed.
+Lemma fold_max_mem {A} (f : A -> nat) l x : In x l -> f x <= fold_right (fun y acc => Nat.max (f y) acc) 0 l.
+Proof. induction l as [|y l IH]; [contradiction|]. cbn [fold_right]. intros [<- | H]; [lia|]. specialize (IH H). lia. Qed.
+
+Lemma value_depth_tv : forall v, value_depth (tv_value v) <= tvc_depth v.
+Proof.
+  apply tvc_strong.
+  - intro s. cbn. lia.
+  - intros l IH. cbn [tv_value tvc_depth]. unfold array_from_iter. cbn [value_depth]. apply le_n_S.
+    rewrite Forall_forall in IH. induction l as [|x l IHl]; [cbn; lia|]. cbn [map fold_right].
+    pose proof (IH x (or_introl eq_refl)). specialize (IHl (fun y Hy => IH y (or_intror Hy))). lia.
+  - intros m IH. rewrite tv_value_tab. cbn [value_depth tvc_depth]. apply le_n_S.
+    set (B := fold_right (fun kv acc => Nat.max (tvc_depth (snd kv)) acc) 0 m).
+    assert (Hall : forall kv, In kv (in_order true (vents m)) -> value_depth (snd kv) <= B).
+    { intros kv Hkv. apply (Permutation_in _ (in_order_perm true (vents m))) in Hkv. unfold vents in Hkv. rewrite map_map in Hkv.
+      apply in_map_iff in Hkv as (kv0 & <- & Hkv0). cbn [snd]. rewrite Forall_forall in IH. specialize (IH kv0 Hkv0).
+      pose proof (fold_max_mem (fun kv : bytes * tvc => tvc_depth (snd kv)) m kv0 Hkv0). unfold B. lia. }
+    unfold mk_inline_items. induction (in_order true (vents m)) as [|kv E IHE]; [cbn; lia|]. cbn [map fold_right fst snd].
+    pose proof (Hall kv (or_introl eq_refl)). specialize (IHE (fun y Hy => Hall y (or_intror Hy))). lia.
+Qed.
+
+Lemma in_order_ients_in three m kv : In kv (in_order three (ients m)) -> exists x, In (fst kv, x) m /\ snd kv = tv_item x.
+Proof.
+  intro H. apply (Permutation_in _ (in_order_perm three (ients m))) in H. unfold ients in H. rewrite map_map in H.
+  apply in_map_iff in H as ([k x] & <- & Hin). cbn [fst snd]. eauto.
+Qed.
+
+Lemma item_depths_tv : forall v, item_hdepth (tv_item v) <= tvc_depth v /\ item_vdepth (tv_item v) <= tvc_depth v.
+Proof.
+  apply tvc_strong.
+  - intro s. cbn. lia.
+  - intros l IH. destruct (c_aot_able l) eqn:Ea.
+    + rewrite (tv_item_aot l Ea). cbn [item_hdepth item_vdepth tvc_depth].
+      assert (Hall : forallb tvc_is_table l = true) by (destruct l; [discriminate|exact Ea]).
+      rewrite forallb_forall in Hall. rewrite Forall_forall in IH.
+      set (B := fold_right (fun x acc => Nat.max (tvc_depth x) acc) 0 l).
+      set (ts := map (fun x : bool * list (bytes * item) => Tbl (mk_tbl_items (snd x)) decor_default (fst x) false None None) (map tab_of l)).
+      assert (G : forall t, In t ts -> tbl_hdepth t <= B /\ tbl_vdepth t <= B).
+      { intros t Ht. unfold ts in Ht. rewrite map_map in Ht. apply in_map_iff in Ht as (x & <- & Hx).
+        specialize (Hall x Hx). destruct x as [s|l0|m]; try discriminate.
+        destruct (IH _ Hx) as [H1 H2]. rewrite tv_item_tab in H1, H2. cbn [item_hdepth item_vdepth] in H1, H2. cbn [tab_of fst snd].
+        pose proof (fold_max_mem tvc_depth l (TvTab m) Hx) as Hm. fold B in Hm. unfold doc_tbl in *. lia. }
+      split.
+      * apply le_n_S. apply (fold_max_bound tbl_hdepth). intros t Ht. apply G, Ht.
+      * apply Nat.le_le_succ_r. apply (fold_max_bound tbl_vdepth). intros t Ht. apply G, Ht.
+    + cbn [tv_item]. rewrite Ea. cbn [item_hdepth item_vdepth]. split; [lia|apply value_depth_tv].
+  - intros m IH. rewrite tv_item_tab. cbn [item_hdepth item_vdepth tvc_depth]. rewrite doc_tbl_the, hdepth_the, vdepth_the.
+    set (B := fold_right (fun kv acc => Nat.max (tvc_depth (snd kv)) acc) 0 m).
+    assert (G : forall kv, In kv (in_order true (ients m)) -> item_hdepth (snd kv) <= B /\ item_vdepth (snd kv) <= B).
+    { intros kv Hkv. destruct (in_order_ients_in true m kv Hkv) as (x & Hx & ->).
+      rewrite Forall_forall in IH. destruct (IH _ Hx) as [H1 H2]. cbn [snd] in H1, H2.
+      pose proof (fold_max_mem (fun kv : bytes * tvc => tvc_depth (snd kv)) m _ Hx) as Hm. cbn [snd] in Hm. fold B in Hm. lia. }
+    split.
+    + apply le_n_S. apply (fold_max_bound (fun kv : bytes * item => item_hdepth (snd kv))). intros kv Hkv. apply G, Hkv.
+    + apply Nat.le_le_succ_r. apply (fold_max_bound (fun kv : bytes * item => item_vdepth (snd kv))). intros kv Hkv. apply G, Hkv.
+Qed.
+
+Lemma tv_doc_depths three m :
+  tvc_depth (TvTab m) <= LIMIT -> tbl_hdepth (tv_doc three m) < LIMIT /\ tbl_vdepth (tv_doc three m) < LIMIT.
+Proof.
+  intro H. cbn [tvc_depth] in H. unfold tv_doc. rewrite doc_tbl_the, hdepth_the, vdepth_the.
+  set (B := fold_right (fun kv acc => Nat.max (tvc_depth (snd kv)) acc) 0 m) in *.
+  assert (G : forall kv, In kv (in_order three (ients m)) -> item_hdepth (snd kv) <= B /\ item_vdepth (snd kv) <= B).
+  { intros kv Hkv. destruct (in_order_ients_in three m kv Hkv) as (x & Hx & ->).
+    destruct (item_depths_tv x) as [H1 H2].
+    pose proof (fold_max_mem (fun kv : bytes * tvc => tvc_depth (snd kv)) m _ Hx) as Hm. cbn [snd] in Hm. fold B in Hm. lia. }
+  fold (ients m).
+  split.
+  - apply Nat.le_lt_trans with B; [|lia]. apply (fold_max_bound (fun kv : bytes * item => item_hdepth (snd kv))). intros kv Hkv. apply G, Hkv.
+  - apply Nat.le_lt_trans with B; [|lia]. apply (fold_max_bound (fun kv : bytes * item => item_vdepth (snd kv))). intros kv Hkv. apply G, Hkv.
+Qed.
+
+(* ---- C06_toml_display, first form: the printed text parses back to the tree of tv_doc, values before tables --------- *)
+Theorem toml_display_parses three m :
+  wf_tvc (TvTab m) -> tvc_depth (TvTab m) <= LIMIT ->
+  exists d, parse_document (display_document (render_tbl float_text (tv_doc three m)) REmpty) = POk d
+            /\ abs_tbl (doc_root d) = printed_entries (abs_tbl (tv_doc three m)).
+Proof.
+  intros Hwf Hd. destruct (tv_doc_depths three m Hd) as [Hh Hv].
+  apply document_roundtrip; [apply tv_doc_built, Hwf|exact Hh|exact Hv].
 Qed.
